@@ -1,6 +1,7 @@
 package main
 
 import (
+	"regexp"
 	"strconv"
 	"crypto/sha256"
 	"encoding/hex"
@@ -47,6 +48,7 @@ type Engine struct {
 	phase1Idx     map[string]map[string]*ssa.Function
 	typeContracts map[string]*Contract // "pkgpath.Type" or "pkgpath.Type.Method"
 	overlayDecls  map[*types.Func]*ast.FuncDecl
+	unbound       []string
 	ghostPreds    map[*types.Func]*Pred
 	funPreds      map[*types.Func]*Pred
 	clauseInfo    map[*Clause]*types.Info
@@ -233,6 +235,48 @@ func (e *Engine) Load() error {
 		}
 	}
 	pkgs, prog, spkgs, err := e.load(overlay)
+	for round := 0; err != nil && round < 3; round++ {
+		// a clause that no longer type-checks (the code was edited: a local or parameter it names is gone) does not
+		// break the check: the clause is marked unbound, its unit is not verified (its obligations are then reported as
+		// "no longer generated", exit 0), everything else goes on
+		n := 0
+		for _, f := range files {
+			p := byDir[filepath.Dir(f)]
+			ps := e.specs[p.PkgPath]
+			gen := filepath.Join(filepath.Dir(f), "zz_contracts_gen_verif.go")
+			lines := strings.Split(string(overlay[gen]), "\n")
+			changed := false
+			for _, m := range regexp.MustCompile(regexp.QuoteMeta(gen)+`:(\d+):`).FindAllStringSubmatch(err.Error(), -1) {
+				ln, _ := strconv.Atoi(m[1])
+				if ln < 1 || ln > len(lines) {
+					continue
+				}
+				fm := regexp.MustCompile(`^func (__c\d+)\(`).FindStringSubmatch(lines[ln-1])
+				if fm == nil {
+					continue
+				}
+				if c := ps.byGoName[fm[1]]; c != nil && !c.Unbound {
+					c.Unbound = true
+					if con := ps.conOf[c]; con != nil {
+						con.Unbound = true
+						e.unbound = append(e.unbound, fmt.Sprintf("%s: clause [%s] of %s no longer type-checks against the code", shortPkg(p.PkgPath), c.Label, con.Key))
+					}
+					changed, n = true, n+1
+				}
+			}
+			if changed {
+				src, gerr := e.GenerateOverlay(ps, p.Types, fnIdx[p.PkgPath])
+				if gerr != nil {
+					return gerr
+				}
+				overlay[gen] = []byte(src)
+			}
+		}
+		if n == 0 {
+			break
+		}
+		pkgs, prog, spkgs, err = e.load(overlay)
+	}
 	if err != nil {
 		return err
 	}
@@ -294,7 +338,13 @@ func (e *Engine) Load() error {
 			if fd == nil {
 				return fmt.Errorf("clause function %s missing", c.GoName)
 			}
-			ret := fd.Body.List[0].(*ast.ReturnStmt)
+			ret, ok := fd.Body.List[0].(*ast.ReturnStmt)
+			if !ok {
+				// unbound clause (body is a panic): no expression
+				c.Func = fd
+				e.clauseInfo[c] = p.TypesInfo
+				return nil
+			}
 			c.Expr = ret.Results[0]
 			c.Func = fd
 			e.clauseInfo[c] = p.TypesInfo
